@@ -118,6 +118,7 @@ def execute(rec, gc_monitor=False):
 
     def on_check(slf, assumptions):
         confinement["checks"] += 1
+        sched.ticks += 1  # progress mark for the stall detector (no effect on the schedule)
         if gc_monitor:
             gc_invariant(None, ("z3-check", 0))
         mine = zb._context  # the calling thread's own context
@@ -211,7 +212,8 @@ def execute(rec, gc_monitor=False):
     out["nontrivial"] = sched.switches >= 2 and st["queries"] >= 2
     out["handles"] = sorted({h.cls for m in machines for h in m.handles})
     out["cov"] = {"threads_%d" % len(machines): 1, "contended_runs": 1 if lock.contended else 0,
-                  "main_actor_runs": 1 if cfg.get("main_actor") else 0}
+                  "main_actor_runs": 1 if cfg.get("main_actor") else 0,
+                  "line_budget_exhausted_runs": 1 if sched.coarse else 0}
     if gc_monitor:
         out["stats"]["queries"] = gcstate["inside_checks"]
         out["cov"]["fullstack_runs"] = 1
